@@ -297,7 +297,10 @@ func (rn *c19Renaming) eq(a, b interface{}, node *c19Node, path []string, where 
 		return ""
 	case map[string]interface{}:
 		y, ok := b.(map[string]interface{})
-		if !ok || len(x) != len(y) {
+		// `fork` maps are keyed by bare call id: two nested map calls with the same id
+		// share one key there, and renaming one of them splits it (not an effect of the edit)
+		forkMap := len(path) > 0 && path[len(path)-1] == "fork"
+		if !ok || (len(x) != len(y) && !forkMap) {
 			return fmt.Sprintf("%s: %s vs %s", where, c19JS(a), c19JS(b))
 		}
 		keys := make([]string, 0, len(x))
@@ -340,7 +343,7 @@ func (rn *c19Renaming) eq(a, b interface{}, node *c19Node, path []string, where 
 					break
 				}
 			}
-			if !found {
+			if !found && !forkMap {
 				return fmt.Sprintf("%s: key %q (expected as %v) missing after the edit; keys after: %v", where, k, cands, c19Keys(y))
 			}
 		}
